@@ -26,6 +26,9 @@ M = [
  ("c03_end_guard_off_by_one", "src/packet.rs", [("if end > buf.len() {", "if end > buf.len() + 1 {")], ["C03"]),
  ("c03_no_len15", "src/packet.rs", [("                        15 => {\n                            return Err(MessageError::InvalidOptionLength);\n                        }\n", "")], ["C03"]),
  ("c03_tkl_gt9", "src/packet.rs", [("if token_length > 8 {", "if token_length > 9 {")], ["C03", "C02"]),
+ ("c03_overstrict_ext8", "src/packet.rs", [("                        13 => {\n                            if idx >= buf.len() {\n                                return Err(MessageError::InvalidOptionLength);\n                            }\n                            delta", "                        13 => {\n                            if idx + 1 >= buf.len() {\n                                return Err(MessageError::InvalidOptionLength);\n                            }\n                            delta")], ["C03"]),
+ ("c03_overstrict_header", "src/header.rs", [("        if buf.len() < 4 {\n            return Err(MessageError::InvalidPacketLength);", "        if buf.len() < 5 {\n            return Err(MessageError::InvalidPacketLength);")], ["C03"]),
+ ("c03_overstrict_tkl", "src/packet.rs", [("if token_length > 8 {", "if token_length > 7 {")], ["C03"]),
  ("c04_no_marker_account", "src/packet.rs", [("buf_length += 1 + self.payload.len();", "buf_length += self.payload.len();")], ["C04"]),
  ("c04_ge_limit", "src/packet.rs", [("limit.is_some() && buf_length > limit.unwrap()", "limit.is_some() && buf_length >= limit.unwrap()")], ["C04"]),
  ("c04_with_limit_ignores_arg", "src/packet.rs", [("        self.to_bytes_internal(Some(limit))", "        self.to_bytes_internal(Some(Self::MAX_SIZE.max(limit)))")], ["C04"]),
